@@ -323,11 +323,14 @@ class Ctx:
                     for k in j["known"]:
                         self.known_seen.setdefault(k, {"case": case, "impl": triple["impl"], "why": j.get("why", "")})
                 elif not j["known"]:
-                    c = self.shrink(case, tie, bin=getattr(self, "_bin", "hk")) if shrink else case
-                    self.violations.append({"case": c, "original": case, "impl": triple["impl"], "why": j.get("why", "")})
+                    c, c_impl, c_why = (self.shrink(case, tie, bin=getattr(self, "_bin", "hk"), why=j.get("why", "")) if shrink else (case, None, None))
+                    v = {"case": c, "original": case, "impl": triple["impl"] if c_impl is None else c_impl, "why": j.get("why", "") if c_why is None else c_why}
+                    if c_impl is not None:
+                        v["original_impl"], v["original_why"] = triple["impl"], j.get("why", "")
+                    self.violations.append(v)
 
     # ---------------- shrinking ----------------
-    def _still_fails(self, cands, bin="hk"):
+    def _still_fails(self, cands, bin="hk", sig=None):
         prep = getattr(self, "prepare", None)
         if prep:
             ok = []
@@ -342,20 +345,22 @@ class Ctx:
         res = self.evaluate(cands, tie="shrink", bin=bin)
         for case, triple, ans in res:
             j = ans.get("judge")
-            if j and not j["ok"] and not j["known"]:
-                return case
+            # the SAME failure (same reason up to positions and counts), not just any failure
+            if j and not j["ok"] and not j["known"] and (sig is None or why_sig(j.get("why", "")) == sig):
+                return case, triple.get("impl"), j.get("why", "")
         return None
 
-    def shrink(self, case, tie, bin="hk", rounds=12):
-        cur = case
+    def shrink(self, case, tie, bin="hk", rounds=12, why=None):
+        cur = (case, None, None)
         if getattr(self, "shrunk", 0) >= 3:      # shrink the first few failures only
             return cur
         self.shrunk = getattr(self, "shrunk", 0) + 1
+        sig = why_sig(why) if why is not None else None
         for _ in range(rounds):
-            cands = [dict(cur, **{"in": v}) for v in shrink_json(cur["in"])][:80]
+            cands = [dict(cur[0], **{"in": v}) for v in shrink_json(cur[0]["in"])][:80]
             if not cands:
                 break
-            nxt = self._still_fails(cands, bin)
+            nxt = self._still_fails(cands, bin, sig)
             if nxt is None:
                 break
             cur = nxt
@@ -432,6 +437,14 @@ class Ctx:
               f"mismatches={len(self.mismatches)} violations={len(self.violations)} breaks={[b.name for b in self.breaks]} "
               f"known={sorted(self.known_seen)} wall={ev['wall_s']}s", file=sys.stderr)
         return rc
+
+
+def why_sig(why):
+    """the kind of a judge failure: first clause, positions / counts / quoted values blanked"""
+    w = (why or "").split(";")[0]
+    w = re.sub(r"'[^']*'|\"[^\"]*\"|`[^`]*`", "Q", w)
+    w = re.sub(r"\[[^\]]*\]|\{[^}]*\}", "B", w)
+    return re.sub(r"\d+", "#", w)[:160]
 
 
 def shrink_json(v):
